@@ -37,6 +37,12 @@ ASSUMPTIONS = [
     "generators while listed in known_findings.json; the probe TestC17a_ProbeF15 re-observes it on every run. The exclusion is pinned: the excluded object "
     "must satisfy the verifier's relation in the exponent, only its verdict is tolerated, and the same shift with the compensation off by one is asserted to be "
     "rejected (class adaptive_shift_miscompensated); every other forgery is decided by the exact relation oracle as before",
+    "optional transcript data of shplonk/fflonk (the only part-A entry points with a dataTranscript argument; kzg's is C11's): proofs made with data A in "
+    "{none, one, several, with an empty element, long} are verified with A and with every variant B (none vs some, one bit changed, byte dropped/appended, "
+    "element added/dropped, elements swapped, split/merged/empty-element framings). The documented layout (data 'appended at the end of the original "
+    "transcript', challenge = H(name || previous || bound values...)) makes the challenge a function of the concatenated bytes, so same-bytes framings are "
+    "the same transcript (asserted accepted via the relation oracle) and every B with other bytes is asserted rejected, except for statements whose honest "
+    "proof does not depend on the challenges at all (e.g. one polynomial of degree <= 1 at one point), which the relation oracle accepts",
     "SameRatioMany: a group in which no slice starts with a non-zero element is rejected whatever the argument order (the function documents and checks "
     "'need a nonzero representative in both groups'); otherwise acceptance = the bilinear same-ratio relation",
 ]
@@ -74,4 +80,8 @@ MANDATORY = ["history:key_object_reloaded"] + ["history:key_object_reloaded:" + 
     "forgery:g1_all_infinity",
     # the neighbour of the known-finding class F15 that must stay rejected
     "adaptive_shift_miscompensated",
+    # optional extra transcript data (dataTranscript ...[]byte) of shplonk and fflonk
+    "extra_data:same_accept", "extra_data:different_reject", "extra_data:same_bytes_other_framing_accept",
+    "extra_data:same_accept:shplonk", "extra_data:different_reject:shplonk", "extra_data:same_accept:fflonk", "extra_data:different_reject:fflonk",
+    "extra_data_kind:none", "extra_data_kind:one_element", "extra_data_kind:several_elements", "extra_data_kind:empty_element", "extra_data_kind:long_element",
 ]
